@@ -2,10 +2,14 @@ package props
 
 import (
 	"fmt"
+	"os"
+	"path/filepath"
 	"strings"
 	"sync"
+	"sync/atomic"
 
 	"github.com/AdguardTeam/urlfilter"
+	"github.com/AdguardTeam/urlfilter/filterlist"
 	"github.com/AdguardTeam/urlfilter/rules"
 
 	"verif/enum"
@@ -32,7 +36,12 @@ func c12Requests() []*rules.Request {
 	r6 := rules.NewRequest("", "", rules.TypeOther)
 	r7 := rules.NewRequest("x", "x", 0)
 	r8 := rules.NewRequest("HTTP://A.COM/X|^*$", "http://a.com", rules.TypeImage)
-	return []*rules.Request{r1, r2, r3, r4, r5, r6, r7, r8}
+	// runes whose lower-case form has another byte length, invalid UTF-8, very long
+	r9 := rules.NewRequest("http://a.com/\u212a\u0130x\u2126/domain", "http://\u0130.com/", rules.TypeScript)
+	r10 := rules.NewRequest("http://a.com/\xff\xfe\xc3/x", "", rules.TypeOther)
+	r11 := rules.NewRequest("http://a.com/"+strings.Repeat("x", 5000), "", rules.TypeScript)
+	r12 := rules.NewRequestForHostname("\u212a.a.com")
+	return []*rules.Request{r1, r2, r3, r4, r5, r6, r7, r8, r9, r10, r11, r12}
 }
 
 // c12CheckLine feeds one line to every parser, matches what comes out and
@@ -114,7 +123,7 @@ func c12CheckLine(c *Ctx, line string, reqs []*rules.Request, engines bool) (acc
 		ne := urlfilter.NewNetworkEngine(st)
 		de := urlfilter.NewDNSEngine(st)
 		en := urlfilter.NewEngine(st)
-		for _, q := range reqs[:3] {
+		for _, q := range []*rules.Request{reqs[0], reqs[1], reqs[2], reqs[8], reqs[9], reqs[11]} {
 			ne.MatchAll(q)
 			ne.Match(q)
 			en.MatchRequest(q)
@@ -142,8 +151,30 @@ var c12Noise = []string{"", "  ", "\t", "! comment", "# comment", "#", "bad$unkn
 	"||x.test^$unknown=" + strings.Repeat("a", 4078) + "||y.test^",
 }
 
-func c12Answers(text string) string {
-	st := stringStorage(text)
+var c12FileSeq atomic.Int64
+
+// c12AnswersFile is c12Answers over a file-backed list.
+func c12AnswersFile(text string) string {
+	p := filepath.Join(os.Getenv("VERIF_WORK"), fmt.Sprintf("c12-%d-%d.txt", os.Getpid(), c12FileSeq.Add(1)))
+	if err := os.WriteFile(p, []byte(text), 0o644); err != nil {
+		panic(HarnessError(err.Error()))
+	}
+	defer os.Remove(p)
+	fl, err := filterlist.NewFileRuleList(1, p, false)
+	if err != nil {
+		panic(HarnessError(err.Error()))
+	}
+	st, err := filterlist.NewRuleStorage([]filterlist.RuleList{fl})
+	if err != nil {
+		panic(HarnessError(err.Error()))
+	}
+	defer st.Close()
+	return c12AnswersOver(st)
+}
+
+func c12Answers(text string) string { return c12AnswersOver(stringStorage(text)) }
+
+func c12AnswersOver(st *filterlist.RuleStorage) string {
 	ne := urlfilter.NewNetworkEngine(st)
 	de := urlfilter.NewDNSEngine(st)
 	ce := urlfilter.NewCosmeticEngine(st)
@@ -184,8 +215,9 @@ func init() {
 			}
 			base, _ := c.Replay["base"].(string)
 			noisy, _ := c.Replay["noisy"].(string)
-			if a, b := c12Answers(base), c12Answers(noisy); a != b {
-				c.Run.Violate(ev.Violation{Pred: "noise-is-inert", Sig: map[string]any{}, What: "answers differ: " + a + " vs " + b})
+			a, b, bf := c12Answers(base), c12Answers(noisy), c12AnswersFile(noisy)
+			if a != b || a != bf {
+				c.Run.Violate(ev.Violation{Pred: "noise-is-inert", Sig: map[string]any{}, What: "answers differ: base " + a + " vs string-backed " + b + " vs file-backed " + bf})
 			}
 			return
 		}
@@ -272,11 +304,28 @@ func init() {
 						}
 						text := strings.Join(out, term) + term
 						le++
+						if term == "\n" {
+							if got := c12AnswersFile(text); got != base {
+								c.Run.Violate(ev.Violation{Pred: "noise-is-inert-file-backed", Sig: map[string]any{"rules": ls, "noise": clip(noise), "gaps": mask},
+									What:   fmt.Sprintf("list %q answers %s; file-backed with noise %q inserted it answers %s", ls, clip(base), clip(noise), clip(got)),
+									Replay: map[string]any{"base": joinLines(ls) + "\n", "noisy": text}})
+							}
+						}
 						if got := c12Answers(text); got != base {
 							c.Run.Violate(ev.Violation{Pred: "noise-is-inert", Sig: map[string]any{"rules": ls, "noise": noise, "gaps": mask, "crlf": term == "\r\n"},
 								What:   fmt.Sprintf("list %q answers %s; with noise %q inserted (%q) it answers %s", ls, clip(base), noise, clip(text), clip(got)),
 								Replay: map[string]any{"base": joinLines(ls) + "\n", "noisy": text}})
 						}
+					}
+				}
+			}
+			// file backing: with and without the final newline
+			if len(ls) > 0 {
+				for _, text := range []string{joinLines(ls) + "\n", joinLines(ls), "! c\n" + joinLines(ls)} {
+					le++
+					if got := c12AnswersFile(text); got != base {
+						c.Run.Violate(ev.Violation{Pred: "file-backing-and-final-newline-are-inert", Sig: map[string]any{"rules": ls, "text": clip(text)},
+							What: fmt.Sprintf("list %q answers %s as a string list; file-backed as %q it answers %s", ls, clip(base), clip(text), clip(got)), Replay: map[string]any{"base": joinLines(ls) + "\n", "noisy": text}})
 					}
 				}
 			}
